@@ -10,7 +10,11 @@ F = [0.0, -0.0, 0.5, -0.5, 1.0, -1.0, 1.5, 2.0 ** 53, 2.0 ** 53 + 2, 2.0 ** 53 -
      -2.0 ** 63 - 2048, 1e300, -1e300, 5e-324, -5e-324, 2.2250738585072014e-308, float("inf"), float("-inf"), 1e19, 1000.0, 1000.5, 999.9999999999999, 128.0,
      9007199254740993.0, 1.2345678901234568e17]
 T = ["", "a", "A", "b", "B", "a ", "a  ", "a\t", " a", "ab", "aB", "Ab", "AB", "ab ", "abc", "ABC", "abd", "z", "Z", "[", "@", "`", "{", "é", "É", "e", "éa", "aé", "K", "k", "K",
-     "a\x00b", "a\x00c", "a\x00", "\x00", "10", "9", "zz  ", "zz", "ZZ "]
+     "a\x00b", "a\x00c", "a\x00", "\x00", "10", "9", "zz  ", "zz", "ZZ ",
+     # texts at and around the machine word sizes (8, 16 bytes): a common prefix of exactly / just under / just over a word, with the
+     # deciding byte - a case difference, a NUL, a different letter - inside the first word, at its edge and right after it
+     "user:42\x00profile", "user:42\x00setting", "USER:42\x00zzz", "user:42\x00", "user:421", "user:42", "abcdefgh", "abcdefgH", "abcdefghi", "abcdefgi", "abcdefg",
+     "abcdefgh\x00x", "abcdefgh\x00y", "abcdefghijklmnop", "abcdefghijklmnoP", "abcdefghijklmnopq", "abcdefghijklmno\x00a", "abcdefghijklmno\x00b", "ABCDEFGHijklmnopQ"]
 B = [b"", b"\x00", b"\x00\x00", b"a", b"A", b"ab", b"a ", b"\xff", b"\xfe\xff", b"abc", b"\x80"]
 GRID = [None] + I + F + T + B
 
@@ -84,6 +88,26 @@ def check(run):
         rt = ",".join(sqlcmp.show_key([(v, "", False)]).split("/")[0] for v in rec) if rec else "-"
         klines.append(("eq/%d" % n, "equals %s %s" % (kt, rt), "true" if sqlcmp.equal(key, rec) else "false"))
         klines.append(("se/%d" % n, "search %s %s" % (kt, rt), "true" if sqlcmp.not_less(key, rec) else "false"))
+    # ... and the same cases again through ONE db.Key object whose values are reassigned from case to case (runs of keys of one
+    # shape): Equals / Search are functions of the key's current values, whatever the key was used for before
+    rlines = []
+    shapes = {}
+    for cid, cmd, exp in klines:
+        kt = cmd.split(" ")[1]
+        shapes.setdefault("|".join(x.split("/", 1)[1] if "/" in x else "" for x in kt.split(",")) if kt != "-" else "-", []).append((cid, cmd, exp))
+    for shape, group in shapes.items():
+        for cid, cmd, exp in group:
+            w = cmd.split(" ")
+            rlines.append(("r" + cid, "%sr %s %s" % (w[0], w[1], w[2]), exp))
+    _, rimpl, _ = ops.run_cmds("c11-reuse", [(c, l) for c, l, _ in rlines], timeout=900, sides=("impl",))
+    dist["key_reuse_cases"] = len(rlines)
+    for cid, cmd, exp in rlines:
+        run.count()
+        i = rimpl.get(cid)
+        if i != [exp] and not ("00" in cmd and any(k["id"] == "nocase-embedded-nul" for k in known)):
+            run.violation("%s on a db.Key object that was used for other values before = %s, SQLite's rules give %s" % (cmd[:120], i, exp),
+                          {"kind": "key-reuse", "command": cmd, "impl": i, "expected": exp, "note": "the same command with a fresh key: see equals/search"})
+            break
     res, impl, model = ops.run_cmds("c11-grid", lines + [(c, l) for c, l, _ in klines], timeout=1500)
     nknown = {}
     for cid, cmd in lines:
